@@ -1521,7 +1521,328 @@ def lower_record_entries(repo):
     return count
 
 
+def lower_callable_records(repo):
+    """``class C: __slots__ = (...); def __init__(self, a, b): self.a = a; self.b = b;
+    def __call__(self, *params): return E`` -- a closure written as a class.  Where the class is
+    only ever instantiated (never subclassed, tested with isinstance, or read otherwise), the
+    statement ``x = C(e1, e2)`` / ``return C(e1, e2)`` outside any loop is
+    ``_c1 = e1; _c2 = e2; x = lambda *params: E[self.a := _c1, self.b := _c2]``:
+    the arguments are evaluated where the object was built, exactly once.  Exact for what the
+    rules read (what the callable returns when called)"""
+    import copy
+    count = 0
+    for mod, info in repo.modules.items():
+        tree = info['tree']
+        recs = {}
+        for st in tree.body:
+            if not isinstance(st, ast.ClassDef) or st.decorator_list or st.keywords:
+                continue
+            if any(not (isinstance(b, ast.Name) and b.id == 'object') for b in st.bases):
+                continue
+            init = call = None
+            ok = True
+            for b in st.body:
+                if isinstance(b, ast.Expr) and isinstance(b.value, ast.Constant) and isinstance(b.value.value, str):
+                    continue
+                if isinstance(b, ast.Assign) and len(b.targets) == 1 and isinstance(b.targets[0], ast.Name) and b.targets[0].id == '__slots__':
+                    continue
+                if isinstance(b, ast.FunctionDef) and b.name == '__init__' and not b.decorator_list:
+                    init = b
+                elif isinstance(b, ast.FunctionDef) and b.name == '__call__' and not b.decorator_list:
+                    call = b
+                else:
+                    ok = False
+            if not ok or init is None or call is None:
+                continue
+            a = init.args
+            if a.vararg or a.kwarg or a.kwonlyargs or a.defaults or a.posonlyargs or len(a.args) < 1:
+                continue
+            self_i, params = a.args[0].arg, [x.arg for x in a.args[1:]]
+            stores = {}
+            for b in init.body:
+                if isinstance(b, ast.Expr) and isinstance(b.value, ast.Constant):
+                    continue
+                if isinstance(b, ast.Assign) and len(b.targets) == 1 and isinstance(b.targets[0], ast.Attribute) and isinstance(b.targets[0].value, ast.Name) \
+                        and b.targets[0].value.id == self_i and isinstance(b.value, ast.Name) and b.value.id in params and b.targets[0].attr not in stores:
+                    stores[b.targets[0].attr] = b.value.id
+                else:
+                    ok = False
+            body = [b for b in call.body if not (isinstance(b, ast.Expr) and isinstance(b.value, ast.Constant))]
+            if not ok or len(body) != 1 or not isinstance(body[0], ast.Return) or body[0].value is None or not call.args.args:
+                continue
+            self_c = call.args.args[0].arg
+            # the body reads self only as self.<stored attribute>
+            uses = [x for x in ast.walk(body[0].value) if isinstance(x, ast.Name) and x.id == self_c]
+            attrs = [x for x in ast.walk(body[0].value) if isinstance(x, ast.Attribute) and isinstance(x.value, ast.Name) and x.value.id == self_c]
+            if len(uses) != len(attrs) or any(x.attr not in stores or not isinstance(x.ctx, ast.Load) for x in attrs):
+                continue
+            if any(isinstance(x, (ast.Lambda, ast.ListComp, ast.GeneratorExp, ast.SetComp, ast.DictComp, ast.Yield, ast.Await, ast.NamedExpr)) for x in ast.walk(body[0].value)):
+                continue
+            recs[st.name] = (params, stores, call, self_c)
+        if not recs:
+            continue
+        # only ever instantiated, anywhere in the package
+        for nm in list(recs):
+            for m2, i2 in repo.modules.items():
+                par = {}
+                for pnode in ast.walk(i2['tree']):
+                    for c in ast.iter_child_nodes(pnode):
+                        par[id(c)] = pnode
+                for x in ast.walk(i2['tree']):
+                    ref = (isinstance(x, ast.Name) and x.id == nm) or (isinstance(x, ast.Attribute) and x.attr == nm)
+                    if ref:
+                        pp = par.get(id(x))
+                        if m2 != mod and isinstance(x, ast.Name):
+                            # another module's own name
+                            imported = any(isinstance(n, ast.ImportFrom) and any((al.asname or al.name) == nm for al in n.names) for n in ast.walk(i2['tree']))
+                            if not imported:
+                                continue
+                        if not (isinstance(pp, ast.Call) and pp.func is x):
+                            recs.pop(nm, None)
+                            break
+                if nm not in recs:
+                    break
+        if not recs:
+            continue
+        seq = [0]
+
+        def build(callnode):
+            params, stores, call, self_c = recs[callnode.func.id]
+            if callnode.keywords and any(k.arg is None or k.arg not in params for k in callnode.keywords):
+                return None
+            if any(isinstance(x, ast.Starred) for x in callnode.args) or len(callnode.args) > len(params):
+                return None
+            vals = dict(zip(params, callnode.args))
+            for k in callnode.keywords:
+                if k.arg in vals:
+                    return None
+                vals[k.arg] = k.value
+            if set(vals) != set(params):
+                return None
+            pre, bound = [], {}
+            for prm in params:
+                v = vals[prm]
+                if isinstance(v, ast.Constant):
+                    bound[prm] = v
+                else:
+                    seq[0] += 1
+                    nmv = '_cr%d_%s' % (seq[0], prm)
+                    pre.append(ast.copy_location(ast.Assign(targets=[ast.Name(id=nmv, ctx=ast.Store())], value=v), callnode))
+                    bound[prm] = ast.Name(id=nmv, ctx=ast.Load())
+
+            class S(ast.NodeTransformer):
+                def visit_Attribute(self, n):
+                    if isinstance(n.value, ast.Name) and n.value.id == self_c and n.attr in stores:
+                        return ast.copy_location(copy.deepcopy(bound[stores[n.attr]]), n)
+                    return self.generic_visit(n)
+            largs = copy.deepcopy(call.args)
+            largs.args = largs.args[1:]
+            lam = ast.Lambda(args=largs, body=S().visit(copy.deepcopy(call.body[-1].value)))
+            return pre, ast.copy_location(lam, callnode)
+
+        def is_rec_call(e):
+            return isinstance(e, ast.Call) and isinstance(e.func, ast.Name) and e.func.id in recs
+
+        def block(stmts, in_loop):
+            out = []
+            for s_ in stmts:
+                done = False
+                if not in_loop and isinstance(s_, (ast.Assign, ast.Return)) and s_.value is not None and is_rec_call(s_.value) \
+                        and not any(is_rec_call(x) for a_ in list(s_.value.args) + [k.value for k in s_.value.keywords] for x in ast.walk(a_)):
+                    r = build(s_.value)
+                    if r is not None:
+                        pre, lam = r
+                        s_.value = lam
+                        out.extend(pre)
+                        out.append(s_)
+                        count_box[0] += 1
+                        done = True
+                if not done:
+                    for fld in ('body', 'orelse', 'finalbody'):
+                        sub = getattr(s_, fld, None)
+                        if isinstance(sub, list) and sub and isinstance(sub[0], ast.stmt) and not isinstance(s_, (ast.FunctionDef, ast.ClassDef, ast.AsyncFunctionDef)):
+                            setattr(s_, fld, block(sub, in_loop or isinstance(s_, (ast.For, ast.While))))
+                    if isinstance(s_, ast.Try):
+                        for h in s_.handlers:
+                            h.body = block(h.body, in_loop)
+                    out.append(s_)
+            return out
+        count_box = [0]
+        for fi in repo.functions.values():
+            if isinstance(fi.node, (ast.FunctionDef,)):
+                fi.node.body = block(fi.node.body, False)
+                ast.fix_missing_locations(fi.node)
+        count += count_box[0]
+    return count
+
+
+def lower_derived_maps(repo):
+    """A dict attribute D of a class that is a cache of a fact about another dict attribute C of
+    the same object: created empty in __init__, and its only mutation anywhere is
+    ``D[k] = k + len(v)`` in the statement sequence that also does ``C[k] = v`` (same key).
+    Then D[x] == x + len(C[x]) whenever either is defined (both raise KeyError otherwise), so
+    every read ``D[x]`` is rewritten to ``x + len(C[x])`` and the stores to D are dropped: the
+    form the code has without the cache.  Anything else done with D (passed on, iterated,
+    deleted from, another store) leaves the code untouched"""
+    from .expr import lin
+    count = 0
+    for ci in list(repo.classes.values()):
+        init = ci.methods.get('__init__')
+        if init is None:
+            continue
+        empties = [n.targets[0].attr for n in ast.walk(init.node) if isinstance(n, ast.Assign) and len(n.targets) == 1 and isinstance(n.targets[0], ast.Attribute)
+                   and isinstance(n.targets[0].value, ast.Name) and n.targets[0].value.id == 'self' and isinstance(n.value, ast.Dict) and not n.value.keys]
+        if len(empties) < 2:
+            continue
+        for D in empties:
+            funcs = [fi for fi in repo.functions.values() if isinstance(fi.node, ast.FunctionDef) and any(isinstance(x, ast.Attribute) and x.attr == D for x in ast.walk(fi.node))]
+            plan = []        # (fi, aliases, stores)
+            C = None
+            ok = True
+            for fi in funcs:
+                par = {}
+                for pn in ast.walk(fi.node):
+                    for c in ast.iter_child_nodes(pn):
+                        par[id(c)] = pn
+                aliases = set()
+                alias_stmts = []
+                for x in ast.walk(fi.node):
+                    if isinstance(x, ast.Attribute) and x.attr == D:
+                        if not (isinstance(x.value, ast.Name) and x.value.id == 'self'):
+                            ok = False
+                            break
+                        pp = par.get(id(x))
+                        if isinstance(pp, ast.Assign) and pp.value is x and len(pp.targets) == 1 and isinstance(pp.targets[0], ast.Name):
+                            aliases.add(pp.targets[0].id)
+                            alias_stmts.append(pp)
+                        elif isinstance(pp, ast.Subscript) and pp.value is x:
+                            pass
+                        elif isinstance(pp, ast.Assign) and x in pp.targets and fi is init and isinstance(pp.value, ast.Dict):
+                            pass
+                        else:
+                            ok = False
+                            break
+                if not ok:
+                    break
+                # an alias is a local bound once, used only as alias[...]
+                for a in aliases:
+                    binds = [n for n in ast.walk(fi.node) if isinstance(n, ast.Name) and n.id == a and isinstance(n.ctx, ast.Store)]
+                    if len(binds) != 1 or a in [x.arg for x in fi.node.args.args]:
+                        ok = False
+                    for n in ast.walk(fi.node):
+                        if isinstance(n, ast.Name) and n.id == a and isinstance(n.ctx, ast.Load):
+                            pp = par.get(id(n))
+                            if not (isinstance(pp, ast.Subscript) and pp.value is n):
+                                ok = False
+                if not ok:
+                    break
+
+                def is_D(e):
+                    return (isinstance(e, ast.Attribute) and e.attr == D) or (isinstance(e, ast.Name) and e.id in aliases)
+                stores = []
+                for n in ast.walk(fi.node):
+                    if isinstance(n, ast.Subscript) and is_D(n.value) and not isinstance(n.ctx, ast.Load):
+                        pp = par.get(id(n))
+                        if not (isinstance(n.ctx, ast.Store) and isinstance(pp, ast.Assign) and n in pp.targets):
+                            ok = False
+                            break
+                        stores.append((pp, n))
+                if not ok:
+                    break
+                if stores:
+                    defs = {}
+                    cnt = {}
+                    for n in ast.walk(fi.node):
+                        if isinstance(n, ast.Assign) and len(n.targets) == 1 and isinstance(n.targets[0], ast.Name):
+                            cnt[n.targets[0].id] = cnt.get(n.targets[0].id, 0) + 1
+                            defs[n.targets[0].id] = n.value
+                    defs = {k: v for k, v in defs.items() if cnt[k] == 1}
+
+                    def res(e):
+                        e = copy.deepcopy(e)
+                        for _ in range(3):
+                            class R(ast.NodeTransformer):
+                                def visit_Name(self, n):
+                                    if isinstance(n.ctx, ast.Load) and n.id in defs and n.id not in aliases:
+                                        return copy.deepcopy(defs[n.id])
+                                    return n
+                            e = R().visit(e)
+                        return e
+                    for st, tgt in stores:
+                        k = tgt.slice
+                        cs = [n for n in ast.walk(fi.node) if isinstance(n, ast.Assign) and len(n.targets) == 1 and isinstance(n.targets[0], ast.Subscript)
+                              and isinstance(n.targets[0].value, ast.Attribute) and isinstance(n.targets[0].value.value, ast.Name) and n.targets[0].value.value.id == 'self'
+                              and n.targets[0].value.attr in empties and n.targets[0].value.attr != D and ast.unparse(n.targets[0].slice) == ast.unparse(k)]
+                        if len(cs) != 1:
+                            ok = False
+                            break
+                        c_attr = cs[0].targets[0].value.attr
+                        # the two stores stand in the same block: one is done exactly when the other is
+                        same_block = False
+                        pp_ = par.get(id(st))
+                        for fld in ('body', 'orelse', 'finalbody'):
+                            blk = getattr(pp_, fld, None)
+                            if isinstance(blk, list) and st in blk and cs[0] in blk:
+                                i0, i1 = sorted((blk.index(st), blk.index(cs[0])))
+                                same_block = not any(isinstance(y, (ast.Return, ast.Raise, ast.Break, ast.Continue)) for z in blk[i0:i1 + 1] for y in ast.walk(z))
+                        if not same_block:
+                            ok = False
+                            break
+                        if C not in (None, c_attr):
+                            ok = False
+                            break
+                        C = c_attr
+                        try:
+                            want = dict(lin(res(k)))
+                            lv = 'len(%s)' % ast.unparse(res(cs[0].value))
+                            want[lv] = want.get(lv, 0) + 1
+                            got = {(ast.unparse(kk) if isinstance(kk, ast.AST) else kk): vv for kk, vv in lin(res(st.value)).items()}
+                            want = {(ast.unparse(kk) if isinstance(kk, ast.AST) else kk): vv for kk, vv in want.items()}
+                        except Exception:
+                            ok = False
+                            break
+                        if got != want:
+                            ok = False
+                            break
+                    if not ok:
+                        break
+                plan.append((fi, aliases, alias_stmts, stores))
+            if not ok or C is None or not plan:
+                continue
+            # C itself must be a plain map: fine, nothing more is needed for the equivalence
+            for fi, aliases, alias_stmts, stores in plan:
+                def is_D(e, aliases=aliases):
+                    return (isinstance(e, ast.Attribute) and e.attr == D) or (isinstance(e, ast.Name) and e.id in aliases)
+
+                class T(ast.NodeTransformer):
+                    def visit_Subscript(self, n):
+                        self.generic_visit(n)
+                        if isinstance(n.ctx, ast.Load) and is_D(n.value):
+                            x = n.slice
+                            cx = ast.Subscript(value=ast.Attribute(value=ast.Name(id='self', ctx=ast.Load()), attr=C, ctx=ast.Load()), slice=copy.deepcopy(x), ctx=ast.Load())
+                            return ast.copy_location(ast.BinOp(left=copy.deepcopy(x), op=ast.Add(), right=ast.Call(func=ast.Name(id='len', ctx=ast.Load()), args=[cx], keywords=[])), n)
+                        return n
+
+                    def visit_Assign(self, n):
+                        if n in alias_stmts:
+                            return None
+                        if fi is init and any(isinstance(t, ast.Attribute) and t.attr == D for t in n.targets) and isinstance(n.value, ast.Dict):
+                            n.targets = [t for t in n.targets if not (isinstance(t, ast.Attribute) and t.attr == D)]
+                            return n if n.targets else None
+                        n.targets = [t for t in n.targets if not (isinstance(t, ast.Subscript) and is_D(t.value))]
+                        if not n.targets:
+                            return ast.copy_location(ast.Expr(value=self.visit(n.value)), n)
+                        self.generic_visit(n)
+                        return n
+                fi.node.body = [y for y in (T().visit(x) for x in fi.node.body) if y is not None] or [ast.Pass()]
+                ast.fix_missing_locations(fi.node)
+            count += 1
+    return count
+
+
 def inline_helpers(repo):
+    repo.lowered_derived_maps = lower_derived_maps(repo)
+    repo.lowered_callable_records = lower_callable_records(repo)
     repo.lowered_record_entries = lower_record_entries(repo)
     repo.lowered_suppress = lower_suppress(repo)
     repo.lowered_index_loops = lower_index_loops(repo)
